@@ -569,6 +569,11 @@ Proof.
     repeat split; try lia; try discriminate. rewrite Hpk, app_nil_r. reflexivity.
 Qed.
 
+Lemma gw_flush_n_S : forall n g,
+  gw_flush_n (S n) g = if gw_free g >=? 32 then mkGw (gw_buf g) 32 (gw_ff g) (gw_out g)
+                       else gw_flush_n n (gw_flush_byte g).
+Proof. reflexivity. Qed.
+
 (* flush() on a state at rest: either whole bytes only (still `sim`), or it ended with a padded
    partial byte (drained, last byte not 0xFF) *)
 Lemma flush_rest_n : forall n g L S,
@@ -698,7 +703,7 @@ Proof.
         destruct (gw_ff (gw_flush g1)) eqn:Eff2.
         -- exfalso.
            (* L1 has at most 4 bits, so flush emitted at most one padded byte, never 0xFF *)
-           unfold gw_flush in Eff2. cbn [gw_flush_n] in Eff2.
+           unfold gw_flush in Eff2. rewrite gw_flush_n_S in Eff2.
            pose proof Hs1 as [(Hfree1 & _) _].
            destruct (Z.geb_spec (gw_free g1) 32).
            ++ cbn [gw_ff] in Eff2. rewrite Eff in Eff2. discriminate.
@@ -737,4 +742,50 @@ Proof.
     - intros tail. reflexivity. }
   destruct (gw_run_ops_sim ops gw_init [] [] Hok Hinit ltac:(cbn; lia)) as (L & HL & Hs).
   cbn [app] in Hs. unfold frev. rewrite <- rev_alt. apply (gw_Flush_spec _ L); assumption.
+Qed.
+
+(* ---------- the write ops of EncodeMappedValue are well formed ---------- *)
+
+Lemma wop_ok_zeros : forall n, 0 <= n <= 93 -> Forall wop_ok (write_zeros_ops n).
+Proof.
+  intros n Hn. unfold write_zeros_ops.
+  repeat match goal with |- context [?a <=? ?b] => destruct (Z.leb_spec a b) end;
+    repeat constructor; unfold wop_ok; cbn [fst snd]; try lia; apply Z.pow_pos_nonneg; lia.
+Qed.
+
+Lemma wop_ok_unary : forall n, 0 <= n <= 31 -> Forall wop_ok (write_unary_ops n).
+Proof.
+  intros n Hn. unfold write_unary_ops. repeat constructor; unfold wop_ok; cbn [fst snd]; try lia.
+  assert (2 ^ 1 <= 2 ^ (n + 1)) by (apply Z.pow_le_mono_r; lia). change (2 ^ 1) with 2 in *. lia.
+Qed.
+
+Lemma encode_mapped_ops_ok : forall k m limit qbpp,
+  0 <= k <= 32 -> 0 <= m -> 1 <= qbpp <= 32 -> qbpp < limit <= 64 ->
+  Forall wop_ok (encode_mapped_ops k m limit qbpp).
+Proof.
+  intros k m limit qbpp Hk Hm Hq Hl. unfold encode_mapped_ops. cbv zeta.
+  rewrite Z.shiftr_div_pow2 by lia.
+  assert (Hpk : 0 < 2 ^ k) by (apply Z.pow_pos_nonneg; lia).
+  assert (Hhigh : 0 <= m / 2 ^ k) by (apply Z.div_pos; lia).
+  destruct (Z.ltb_spec (m / 2 ^ k) (limit - (qbpp + 1))) as [Hlt|Hge].
+  - apply Forall_app. split; [|apply Forall_app; split].
+    + destruct (Z.gtb_spec (m / 2 ^ k + 1) 31); [|constructor].
+      apply wop_ok_zeros. rewrite Z.quot_div_nonneg by lia. Z.div_mod_to_equations. lia.
+    + apply wop_ok_unary. destruct (Z.gtb_spec (m / 2 ^ k + 1) 31); [|lia].
+      rewrite Z.quot_div_nonneg by lia. Z.div_mod_to_equations. lia.
+    + destruct (Z.gtb_spec k 0); [|constructor]. constructor; [|constructor]. unfold wop_ok. cbn [fst snd].
+      split; [lia|]. rewrite Z.shiftl_1_l. replace (2 ^ k - 1) with (Z.ones k) by (rewrite Z.ones_equiv; lia).
+      rewrite Z.land_ones by lia. pose proof (Z.mod_pos_bound m (2 ^ k) Hpk).
+      assert (2 ^ k <= 2 ^ 32) by (apply Z.pow_le_mono_r; lia).
+      unfold wrapU. rewrite Z.mod_small by lia. lia.
+  - apply Forall_app. split.
+    + destruct (Z.gtb_spec (limit - qbpp) 31).
+      * apply Forall_app. split; [apply wop_ok_zeros; lia | apply wop_ok_unary; lia].
+      * apply wop_ok_unary. lia.
+    + constructor; [|constructor]. unfold wop_ok. cbn [fst snd]. split; [lia|].
+      assert (Hpq : 0 < 2 ^ qbpp) by (apply Z.pow_pos_nonneg; lia).
+      rewrite Z.shiftl_1_l. replace (2 ^ qbpp - 1) with (Z.ones qbpp) by (rewrite Z.ones_equiv; lia).
+      rewrite Z.land_ones by lia. pose proof (Z.mod_pos_bound (m - 1) (2 ^ qbpp) Hpq).
+      assert (2 ^ qbpp <= 2 ^ 32) by (apply Z.pow_le_mono_r; lia).
+      unfold wrapU. rewrite Z.mod_small by lia. lia.
 Qed.
